@@ -833,7 +833,7 @@ def explore(ctx, res, deep):
         evaluate(ctx, cases, res)
         res['scopes'][name] = len(cases)
     if not unexpected(ctx, res):
-        n = (200000 if ctx.tier == 'thorough' else 8000) if deep else 1500
+        n = (200000 if ctx.tier == 'thorough' else 8000) if deep else 4000
         evaluate(ctx, [random_case(ctx.rng) for _ in range(n)], res)
         res['scopes']['generated'] = res['scopes'].get('generated', 0) + n
 
